@@ -36,7 +36,7 @@ package dns
 //@ spec ktsum(w seq, n int) int = n <= 0 ? 0 : ktsum(w, n - 1) + (((n - 1) % 2 == 1) ? w[n-1] : w[n-1] * 256) decreases n
 //@ spec ktfold(ac int) int = (ac + (ac / 65536) % 65536) % 65536
 
-//@ func packKeyWire [C17 C10]
+//@ func packKeyWire [C17 C10 C16]
 //@   requires dw != nil
 //@   ensures ok:  ret1 == nil ==> 4 <= ret0 && ret0 <= len(msg)
 //@   ensures hdr: ret1 == nil ==> msg[0] == dw.Flags / 256 && msg[1] == dw.Flags % 256 && msg[2] == dw.Protocol && msg[3] == dw.Algorithm
